@@ -149,6 +149,11 @@ def gen_super(rng, idx, tier):
         kinds[-1] = rng.choice(NONBIASING)
     if all(k in NONBIASING for k in kinds):
         kinds[0] = "harmonic"
+    forced_prev = (idx % 6 == 1)
+    if forced_prev:
+        # abf reading previous-step total forces, with subtractAppliedForce, next to a harmonicWalls bias (whose force reaches
+        # the variable through the route that bypasses the extended Lagrangian) on the same variable
+        kinds = ["abf_on", "walls"] + ([rng.choice(["harmonic", "linear", "meta_nogrid"])] if rng.random() < 0.5 else [])
     n_abf_on = sum(1 for k in kinds if k == "abf_on")
     while n_abf_on > 1:
         kinds[kinds.index("abf_on")] = "harmonic"
@@ -156,7 +161,7 @@ def gen_super(rng, idx, tier):
     needs_tf = any(k in ("abf_on", "abf_off") for k in kinds)
     tfmode = "off"
     if needs_tf:
-        tfmode = "prev" if rng.random() < 0.35 else "same"
+        tfmode = "prev" if (rng.random() < 0.35 or forced_prev) else "same"
     sysm = corpus.make_system(rng, natoms=26, cell=(rng.random() < 0.25))
     vkinds = [rng.choice(list(VKINDS)) for _ in range(3)]
     extra = {}
